@@ -4,6 +4,7 @@
 package c07
 
 import (
+	"bytes"
 	"fmt"
 	"math/rand"
 	"strconv"
@@ -159,6 +160,22 @@ func (prop) RunImpl(c corr.Case) ([]string, []corr.Fail) {
 				if r == (legit(a, b) || legit(b, a)) {
 					fails = append(fails, corr.Fail{Sig: "contradiction-differs-from-LIP14", Detail: op + fmt.Sprintf(" got %v", r), Op: i})
 				}
+			}
+			// the pairwise API entry point (liskbft.API.AreHeadersContradicting): two SEALED headers with
+			// different ids must get the verdict of the pairwise rule (also when all four BFT fields agree -
+			// the canonical double-forging pair), one and the same header (equal id) never contradicts itself
+			sealed := func(x hdr, id byte) blockchain.SealedBlockHeader {
+				return (&blockchain.BlockHeader{ID: bytes.Repeat([]byte{id}, 32), Version: 2, Height: x.h, GeneratorAddress: x.gen,
+					MaxHeightGenerated: x.g, MaxHeightPrevoted: x.p}).Readonly()
+			}
+			if ra, err := api.AreHeadersContradicting(sealed(a, 1), sealed(b, 2)); err != nil || ra != r {
+				fails = append(fails, corr.Fail{Sig: "api-pairwise-contradiction-differs-from-rule", Detail: fmt.Sprintf("%s: API.AreHeadersContradicting on distinct ids = %v (err %v), pairwise rule = %v", op, ra, err, r), Op: i})
+			}
+			if rb, err := api.AreHeadersContradicting(sealed(b, 2), sealed(a, 1)); err != nil || rb != r {
+				fails = append(fails, corr.Fail{Sig: "api-pairwise-contradiction-differs-from-rule", Detail: fmt.Sprintf("%s (swapped): API.AreHeadersContradicting = %v (err %v), pairwise rule = %v", op, rb, err, r), Op: i})
+			}
+			if rs, err := api.AreHeadersContradicting(sealed(a, 7), sealed(a, 7)); err != nil || rs {
+				fails = append(fails, corr.Fail{Sig: "api-header-contradicts-itself", Detail: fmt.Sprintf("%s: the same sealed header = %v (err %v)", op, rs, err), Op: i})
 			}
 			out = append(out, strconv.FormatBool(r))
 		case "diffchain":
